@@ -29,6 +29,8 @@ var (
 	flagRepDir = flag.String("verif.replaydir", "", "directory to write replay files into")
 	flagKeys   = flag.String("verif.keys", "", "key directory")
 	flagBudget = flag.Duration("verif.budget", 0, "wall-clock budget for exploration in this process (0 = rapid.checks decides)")
+	flagShard  = flag.Int("verif.shard", 0, "index of this process among the shards of a run")
+	flagShards = flag.Int("verif.nshards", 1, "number of shards of a run")
 )
 
 func thorough() bool { return *flagTier == "thorough" }
@@ -54,6 +56,10 @@ type Prop[S any] struct {
 	// Minimise optionally narrows a failing spec using the first violation's details
 	// (fault enumeration: keep only the fault that fired).
 	Minimise func(spec S, v kernel.Violation) S
+	// Enumerate optionally lists a finite sub-space that the thorough tier walks completely
+	// (each shard takes the indices congruent to its shard number) before the seeded search.
+	EnumCount func() int
+	EnumSpec  func(i int) S
 }
 
 type replayFile struct {
@@ -132,6 +138,32 @@ func RunProp[S any](t *testing.T, p Prop[S]) {
 		}
 	}()
 
+	if p.EnumCount != nil && thorough() {
+		n, done, complete := p.EnumCount(), 0, true
+		for i := *flagShard; i < n; i += *flagShards {
+			if !deadline.IsZero() && time.Now().After(deadline) {
+				complete = false
+				break
+			}
+			spec := p.EnumSpec(i)
+			r := execOnce(t, p, st, spec)
+			done++
+			if len(r.Viol) > 0 {
+				writeReplay(p.ID, st, spec, r, r.Viol[0])
+				t.Errorf("violation %s in enumerated case %d: %s", r.Viol[0].Class, i, r.Viol[0].Msg)
+				return
+			}
+		}
+		st.Probes["enumerated-cases-of-this-shard"] = done
+		st.Probes["enumerated-space-size"] = n
+		if complete {
+			st.Probes["enumeration-complete-in-this-shard"] = 1
+		}
+		// the seeded search gets a budget of its own
+		if *flagBudget > 0 {
+			deadline = time.Now().Add(*flagBudget / 2)
+		}
+	}
 	rapid.Check(t, func(rt *rapid.T) {
 		spec := p.Draw(rt)
 		if !deadline.IsZero() && time.Now().After(deadline) && target == "" {
